@@ -490,4 +490,103 @@ theorem inv_run (k0 : Nat) (ops : List BuilderOp) : Inv k0 ops (Builder.run k0 o
   have := inv_foldl ops [] (Builder.new k0) (inv_new k0)
   simpa [Builder.run] using this
 
+/-! ### bookkeeping facts usable from outside (C02: `compile` drives the builder with keys that
+    are their own state ids) -/
+
+/-- `size` = number of distinct keys mentioned -/
+theorem run_size (k0 : Nat) (ops : List BuilderOp) :
+    (Builder.run k0 ops).size = (keys k0 ops).length := (inv_run k0 ops).rel.size
+
+theorem run_states_length (k0 : Nat) (ops : List BuilderOp) :
+    (Builder.run k0 ops).states.length = (keys k0 ops).length := (inv_run k0 ops).rel.len
+
+theorem keys_nodup (k0 : Nat) (ops : List BuilderOp) : (keys k0 ops).Nodup :=
+  (inv_run k0 ops).rel.nodup
+
+/-- `id_map.get(k)` = position of `k` in the order of first mention (`none` if never mentioned) -/
+theorem run_lookup (k0 : Nat) (ops : List BuilderOp) (k : Nat) :
+    (Builder.run k0 ops).idMap.lookup k = idOf k0 ops k := by
+  rw [(inv_run k0 ops).rel.map, lookup_zipIdx]
+  unfold idOf
+  cases indexOf k (keys k0 ops) <;> simp
+
+theorem mem_keys_iff_idOf (k0 : Nat) (ops : List BuilderOp) (k : Nat) :
+    k ∈ keys k0 ops ↔ ∃ i, idOf k0 ops k = some i :=
+  ⟨fun h => indexOf_isSome_of_mem h, fun ⟨_, h⟩ => mem_of_indexOf h⟩
+
+/-- every key mentioned by an op of the sequence, and `k0`, is in `keys` -/
+theorem mem_keys_of_op (k0 : Nat) {ops : List BuilderOp} {op : BuilderOp} (hop : op ∈ ops)
+    {k : Nat} (hk : k ∈ keysOf op) : k ∈ keys k0 ops := (inv_run k0 ops).closed op hop k hk
+
+theorem k0_mem_keys (k0 : Nat) (ops : List BuilderOp) : k0 ∈ keys k0 ops :=
+  mem_of_indexOf (inv_run k0 ops).init
+
+/-- the state vector of the builder, per key -/
+theorem run_state (k0 : Nat) (ops : List BuilderOp) {k i : Nat} (h : idOf k0 ops k = some i) :
+    (Builder.run k0 ops).states[i]? = some (expSIC (keys k0 ops) ops k) := by
+  obtain ⟨hi, hk⟩ := indexOf_lt h
+  rw [(inv_run k0 ops).states, List.getElem?_map, List.getElem?_eq_getElem hi, hk]
+  rfl
+
+theorem indexOf_range {k m : Nat} (h : k < m) : indexOf k (List.range m) = some k := by
+  induction m with
+  | zero => omega
+  | succ m ih =>
+    rw [List.range_succ]
+    by_cases hk : k < m
+    · rw [indexOf_append_of_mem (List.mem_range.2 hk)]
+      exact ih hk
+    · have : k = m := by omega
+      subst this
+      have := indexOf_append_new (k := k) (L := List.range k) (by simp)
+      simpa using this
+
+/-- keys that are their own ids: if the keys were first mentioned in the order `0, 1, 2, …`
+    (as `compile` does), the id map is the identity -/
+theorem idOf_of_keys_range {k0 : Nat} {ops : List BuilderOp} {m : Nat}
+    (h : keys k0 ops = List.range m) {k : Nat} (hk : k < m) : idOf k0 ops k = some k := by
+  unfold idOf
+  rw [h]
+  exact indexOf_range hk
+
+theorem addKey1_range {n k : Nat} (hk : k ≤ n) :
+    addKey1 (List.range n) k = List.range (max n (k + 1)) := by
+  unfold addKey1
+  by_cases h : k < n
+  · simp only [List.mem_range, h, if_true]
+    congr 1
+    omega
+  · have : k = n := by omega
+    subst this
+    simp only [List.mem_range, Nat.lt_irrefl, if_false]
+    rw [← List.range_succ]
+    congr 1
+    omega
+
+/-- one call whose keys are at most the number of keys mentioned so far (i.e. old keys, or the
+    next fresh number) keeps `keys = 0, 1, …, m-1` -/
+theorem keys_range_snoc {k0 : Nat} {ops : List BuilderOp} {m : Nat}
+    (h : keys k0 ops = List.range m) (op : BuilderOp)
+    (hop : match op with
+      | .addTransition k _ k' => k ≤ m ∧ k' ≤ max m (k + 1)
+      | .setDefault k k' => k ≤ m ∧ k' ≤ max m (k + 1)
+      | .markFinal k => k ≤ m) :
+    ∃ m', m ≤ m' ∧ keys k0 (ops ++ [op]) = List.range m' := by
+  rw [keys_snoc, h]
+  cases op with
+  | markFinal k =>
+    simp only at hop
+    refine ⟨max m (k + 1), by omega, ?_⟩
+    simp [keysOf, addKeys_cons, addKeys_nil, addKey1_range hop]
+  | setDefault k k' =>
+    simp only at hop
+    refine ⟨max (max m (k + 1)) (k' + 1), by omega, ?_⟩
+    simp [keysOf, addKeys_cons, addKeys_nil, addKey1_range hop.1, addKey1_range hop.2]
+  | addTransition k set k' =>
+    simp only at hop
+    refine ⟨max (max m (k + 1)) (k' + 1), by omega, ?_⟩
+    simp [keysOf, addKeys_cons, addKeys_nil, addKey1_range hop.1, addKey1_range hop.2]
+
+theorem keys_new (k0 : Nat) : keys k0 [] = [k0] := rfl
+
 end Smt.BuilderSpec
